@@ -484,6 +484,83 @@ def index_bounds(rep, lua):
         rep.ob("INDEX-BOUNDS", "%s|census" % name, True, "%d index guard(s) in %s evaluated at both ends of the valid range" % (n_guards, name), sites=n_guards)
 
 
+def held_across_callback(rep, lua, leaks, rule="GLOBAL-LEAK"):
+    """an undeclared (global) temporary of a library function is shared by all its activations.  That is harmless while
+    the value is consumed before anything else can run, and a bug when a *callback* runs between the assignment and a
+    later use: a nested call of the same library function from inside the callback (map inside map) overwrites it."""
+    by_fn = {}
+    for fn_, var, line in leaks:
+        by_fn.setdefault(fn_, set()).add(var)
+    n = 0
+    for fn_, vars_ in sorted(by_fn.items()):
+        f = lua.globals[fn_][1]
+        cbs = set(f["params"])
+        # linearise: (kind, name, in_loop_id) events in program order
+        events = []
+
+        def walk_block(b, loop):
+            for st in b["stmts"]:
+                walk_stmt(st, loop)
+
+        def uses(e, loop):
+            for x in luaparse.walk(e):
+                if isinstance(x, dict) and x.get("k") == "Call" and x["f"].get("k") == "Name" and x["f"]["name"] in cbs:
+                    events.append(("call", x["f"]["name"], loop))
+                if isinstance(x, dict) and x.get("k") == "Name" and x["name"] in vars_:
+                    events.append(("read", x["name"], loop))
+
+        def walk_stmt(st, loop):
+            k = st["k"]
+            if k == "Assign":
+                for e in st["es"]:
+                    uses(e, loop)
+                for t in st["targets"]:
+                    if t["k"] == "Name" and t["name"] in vars_:
+                        events.append(("write", t["name"], loop))
+                    else:
+                        uses(t, loop)
+            elif k in ("ForIn", "ForNum", "While", "Repeat"):
+                for key in ("es", "start", "stop", "step", "cond"):
+                    if st.get(key) is not None:
+                        uses(st[key], loop)
+                walk_block(st["body"], id(st))
+            elif k == "If":
+                for c, b in st["clauses"]:
+                    uses(c, loop)
+                    walk_block(b, loop)
+                if st.get("els"):
+                    walk_block(st["els"], loop)
+            elif k == "Do":
+                walk_block(st["body"], loop)
+            else:
+                uses({kk: vv for kk, vv in st.items() if kk != "k"}, loop)
+        walk_block(f["body"], None)
+        for v in sorted(vars_):
+            n += 1
+            bad = False
+            for i, (k1, n1, l1) in enumerate(events):
+                if k1 != "write" or n1 != v:
+                    continue
+                called = False
+                for k2, n2, l2 in events[i + 1:]:
+                    if k2 == "call":
+                        called = True
+                    elif k2 == "write" and n2 == v and l2 == l1:
+                        break
+                    elif k2 == "read" and n2 == v and called:
+                        bad = True
+                # a write outside a loop whose reads and callback calls are inside one: held for the whole loop
+                if l1 is None and any(k2 == "call" and l2 is not None for k2, n2, l2 in events[i + 1:]) and \
+                        any(k2 == "read" and n2 == v and l2 is not None for k2, n2, l2 in events[i + 1:]):
+                    bad = True
+            rep.ob(rule, "%s|%s|not-held-across-callback" % (fn_, v), not bad,
+                   ("the global temporary `%s` of %s is consumed before a callback can run" % (v, fn_)) if not bad else
+                   ("%s keeps its working value in the undeclared global `%s` while it calls the user's callback: a nested call "
+                    "of %s from inside the callback (map over a list of lists) overwrites it and the outer call continues with the "
+                    "inner call's table" % (fn_, v, fn_)), "sylt-compiler/src/preamble.lua")
+    rep.floor(rule, "global temporaries of library functions", n, 3)
+
+
 def global_leak(rep, lua):
     """assignments to undeclared names inside functions"""
     leaks = []
@@ -516,6 +593,7 @@ def global_leak(rep, lua):
                     if s.get("els"):
                         scan(s["els"], declared)
         scan(f["body"], declared)
+    held_across_callback(rep, lua, leaks)
     for fn_, var, line in leaks:
         rep.info("accidental global: %s assigns the undeclared name `%s` (preamble.lua:%s)" % (fn_, var, line))
     rep.ob("GLOBAL-LEAK", "census", True, "%d assignments to undeclared names inside library functions (information)" % len(leaks), sites=len(leaks))
